@@ -37,6 +37,9 @@ pub enum Op {
     /// listener and then closes (0: at once, 1: after 30 ms) without ever completing anemo's
     /// acknowledgement: never an established connection, so it must not use up a slot
     BrokenArrive(u8),
+    /// the listener explicitly dials an address where nobody answers: the dial stays pending for
+    /// its connect timeout (10 s) while the history goes on
+    ListenerDialsDead,
 }
 
 #[derive(Clone, Debug, Serialize, Deserialize, PartialEq, Eq, Hash)]
@@ -45,6 +48,9 @@ pub struct Case {
     pub dialers: u8,
     pub initial: Vec<Aff>,
     pub ops: Vec<Op>,
+    /// the listener's max_concurrent_outstanding_connecting_connections (a cap on its own background dials)
+    #[serde(default)]
+    pub outstanding_cap: Option<u8>,
 }
 
 const INTERVAL_MS: u64 = 400;
@@ -74,6 +80,7 @@ pub fn check(case: &Case, obs: &mut Obs) -> Result<(), Fail> {
         ls.config.connectivity_check_interval_ms = Some(INTERVAL_MS);
         ls.config.connection_backoff_ms = Some(200);
         ls.config.max_connection_backoff_ms = Some(400);
+        ls.config.max_concurrent_outstanding_connecting_connections = case.outstanding_cap.map(|c| c.max(1) as usize);
         let l = sim.node_with(ls)?;
         let mut ds = Vec::new();
         for i in 0..nd {
@@ -96,6 +103,7 @@ pub fn check(case: &Case, obs: &mut Obs) -> Result<(), Fail> {
         let (mut by_limit_with_outbound, mut bypass_at_limit, mut slot_reused, mut freed) = (false, false, false, false);
         let mut outbound: BTreeSet<u8> = BTreeSet::new();
         let (mut broken, mut failed_handshake_at_limit_cfg, mut arrival_after_failed) = (0u32, false, false);
+        let (mut dead_dials, mut dial_pending_until, mut arrival_during_pending_dial) = (0u32, 0u64, false);
 
         for (step, op) in case.ops.iter().enumerate() {
             let disconnected: Vec<u8> = (0..nd).filter(|i| !est.contains(i)).collect();
@@ -111,7 +119,8 @@ pub fn check(case: &Case, obs: &mut Obs) -> Result<(), Fail> {
                     let d = pool[idx(*i, pool.len())];
                     let (a, _) = aff[&d];
                     let want = admit(a, est.len());
-                    let r = within(20_000, ds[d as usize].net.connect(l.addr())).await;
+                    // half of the arrivals name the listener's identity (connect_with_peer_id)
+                    let r = if *i % 2 == 1 { within(20_000, ds[d as usize].net.connect_with_peer_id(l.addr(), l.id())).await } else { within(20_000, ds[d as usize].net.connect(l.addr())).await };
                     let ok = match &r { Ok(Ok(_)) => true, Ok(Err(_)) => false, Err(()) => vfail!("c10:dial-hang", "{describe}: dialer's connect did not return") };
                     vensure!(ok == want, if ok { "c10:admitted-against-rule" } else { "c10:rejected-against-rule" },
                         "{describe}: dialer {d} with affinity {:?} arrived with {} established connections: connect ok={ok}, the rule says {}{}", a, est.len(), if want { "admit" } else { "reject" },
@@ -120,6 +129,7 @@ pub fn check(case: &Case, obs: &mut Obs) -> Result<(), Fail> {
                         est.insert(d);
                     }
                     if a == Aff::Unknown && failed_handshake_at_limit_cfg { arrival_after_failed = true; }
+                    if sim.now_ms() < dial_pending_until { arrival_during_pending_dial = true; }
                     if a == Aff::Unknown && limit.is_some() {
                         if !outbound.is_empty() && (est.len() + (!want) as usize) >= limit.unwrap() { by_limit_with_outbound = true; }
                         if want && freed { slot_reused = true; }
@@ -162,10 +172,44 @@ pub fn check(case: &Case, obs: &mut Obs) -> Result<(), Fail> {
                     aff.insert(d, (*a, false));
                     set_aff(&l, &ds[d as usize], *a, false);
                 }
+                Op::SetHighWithAddress(_) if case.outstanding_cap.is_some() => {
+                    // with a cap on outstanding connection attempts a pending dial may legitimately delay
+                    // the background dial (that is C13's subject): not combined here
+                    obs.label("excluded:background-dial-with-outstanding-cap");
+                    continue;
+                }
                 Op::SetHighWithAddress(d) => {
                     let d = *d % nd;
                     aff.insert(d, (Aff::High, true));
                     set_aff(&l, &ds[d as usize], Aff::High, true);
+                }
+                Op::ListenerDialsDead => {
+                    dead_dials += 1;
+                    let net = l.net.clone();
+                    let addr = node_addr(200 + (dead_dials % 50) as u8);
+                    tokio::spawn(async move { let _ = net.connect(addr).await; });
+                    dial_pending_until = sim.now_ms() + 10_000;
+                }
+                Op::BrokenArrive(kind) if *kind % 3 == 2 => {
+                    // a stranger that never lets the listener open its acknowledgement stream: the
+                    // listener's handshake runs into its connect timeout (10 s)
+                    broken += 1;
+                    let who = adv::Presented::honest(&key_seed(600 + broken as u64), "simnet");
+                    let ep = adv::raw_endpoint(&sim.fabric, node_addr(100 + broken as u8), None).map_err(|e| Fail::Inconclusive(e.to_string()))?;
+                    let mut cfg = adv::client_config(Some(&who), Arc::new(Mutex::new(Vec::new())));
+                    let mut t = quinn::TransportConfig::default();
+                    t.max_concurrent_uni_streams(0u8.into());
+                    t.max_idle_timeout(Some(std::time::Duration::from_secs(30).try_into().unwrap()));
+                    cfg.transport_config(Arc::new(t));
+                    if let Ok(connecting) = ep.connect_with(cfg, l.addr(), "simnet") {
+                        if let Ok(Ok(conn)) = within(10_000, connecting).await {
+                            sleep_ms(10_500).await;
+                            conn.close(0u32.into(), b"");
+                            if limit.is_some() { failed_handshake_at_limit_cfg = true; }
+                        }
+                    }
+                    ep.wait_idle().await;
+                    drop(ep);
                 }
                 Op::BrokenArrive(kind) => {
                     broken += 1;
@@ -208,6 +252,7 @@ pub fn check(case: &Case, obs: &mut Obs) -> Result<(), Fail> {
         if bypass_at_limit { obs.label("affinity-bypass-at-limit"); }
         if slot_reused { obs.label("freed-slot-reused"); }
         if arrival_after_failed { obs.label("limit-decided-after-failed-handshake"); }
+        if arrival_during_pending_dial { obs.label("arrival-while-an-outbound-dial-is-pending"); }
         if by_limit_with_outbound || bypass_at_limit || slot_reused || arrival_after_failed {
             obs.nontrivial(&case);
         }
@@ -220,7 +265,7 @@ impl Part for Histories {
     type Case = Case;
     fn name(&self) -> &'static str { "admission-history" }
     fn rule(&self) -> &'static str {
-        "a listener with limit in {None, 0..4} and an affinity table over 2-6 dialers (High/Allowed/Never/unknown, mutated at run time); histories of non-overlapping arrivals (also of already connected dialers), explicit dials by the listener (also to connected dialers), disconnects from either side, High-with-address entries that trigger background dials, and strangers that complete TLS and close before anemo's acknowledgement (never established: must not use up a slot); settle after every step; oracle = admission model written from the documentation (Never => reject; High/Allowed => admit; else no limit or established < limit, counting both directions): dial result Ok <=> model admits, listener's listing == model after every step, every dialer's view agrees, explicit and background dials never blocked; excluded by construction: arrivals of peers the listener is dialing in the background, explicit dials to Never peers; non-trivial = an arrival decided by the limit while an outbound connection is counted, a High/Allowed/background bypass at the limit, a freed slot reused, or a limit decision after a failed inbound handshake; distinct by case"
+        "a listener with limit in {None, 0..4} and an affinity table over 2-6 dialers (High/Allowed/Never/unknown, mutated at run time); histories of non-overlapping arrivals (also of already connected dialers), explicit dials by the listener (also to connected dialers), disconnects from either side, High-with-address entries that trigger background dials, strangers that complete TLS and close before anemo's acknowledgement or never let the listener open its acknowledgement stream until its connect timeout (never established: must not use up a slot), explicit dials of the listener to a dead address that stay pending for 10 s (optionally with max_concurrent_outstanding_connecting_connections of 1-2), half of the arrivals naming the listener's identity; settle after every step; oracle = admission model written from the documentation (Never => reject; High/Allowed => admit; else no limit or established < limit, counting both directions): dial result Ok <=> model admits, listener's listing == model after every step, every dialer's view agrees, explicit and background dials never blocked; excluded by construction: arrivals of peers the listener is dialing in the background, explicit dials to Never peers; non-trivial = an arrival decided by the limit while an outbound connection is counted, a High/Allowed/background bypass at the limit, a freed slot reused, or a limit decision after a failed inbound handshake; distinct by case"
     }
     fn strategy(&self, _t: Tier) -> BoxedStrategy<Case> {
         let aff = || prop_oneof![3 => Just(Aff::Unknown), 1 => Just(Aff::High), 1 => Just(Aff::Allowed), 1 => Just(Aff::Never)];
@@ -233,10 +278,11 @@ impl Part for Histories {
             2 => any::<u16>().prop_map(Op::DisconnectByDialer),
             2 => (0u8..6, aff()).prop_map(|(d, a)| Op::SetAffinity(d, a)),
             1 => (0u8..6).prop_map(Op::SetHighWithAddress),
-            2 => (0u8..2).prop_map(Op::BrokenArrive),
+            2 => (0u8..3).prop_map(Op::BrokenArrive),
+            1 => Just(Op::ListenerDialsDead),
         ];
-        (prop_oneof![1 => Just(None), 4 => (0u8..5).prop_map(Some)], 2u8..7, prop::collection::vec(aff(), 6), prop::collection::vec(op, 1..16))
-            .prop_map(|(limit, dialers, initial, ops)| Case { limit, dialers, initial, ops })
+        (prop_oneof![1 => Just(None), 4 => (0u8..5).prop_map(Some)], 2u8..7, prop::collection::vec(aff(), 6), prop::collection::vec(op, 1..16), prop_oneof![3 => Just(None), 1 => (1u8..3).prop_map(Some)])
+            .prop_map(|(limit, dialers, initial, ops, outstanding_cap)| Case { limit, dialers, initial, ops, outstanding_cap })
             .boxed()
     }
     fn run(&self, c: &Case, obs: &mut Obs) -> Result<(), Fail> { check(c, obs) }
